@@ -1048,6 +1048,15 @@ func (p *Parser) evaluateVarDefinition(ctx context) (Statement, error) {
 	nameTokensLength := len(nameTokens)
 	firstNameToken := nameTokens[0]
 
+	// Make sure a name is not defined twice by the same statement (a, a := 1, 2).
+	for i, nameToken := range nameTokens {
+		for _, previousNameToken := range nameTokens[:i] {
+			if previousNameToken.Value() == nameToken.Value() {
+				return nil, p.atError(fmt.Sprintf("variable %s has already been defined", nameToken.Value()), nameToken)
+			}
+		}
+	}
+
 	// Check if all variables are already defined.
 	if nameTokensLength > 1 {
 		alreadyDefined := 0
@@ -1873,6 +1882,9 @@ func (p *Parser) evaluateFor(ctx context) (Statement, error) {
 
 			if nextToken.Type() != lexer.IDENTIFIER {
 				return nil, p.expectedIdentifierError(nextToken)
+			}
+			if nextToken.Value() == indexVarName {
+				return nil, p.atError(fmt.Sprintf("variable %s has already been defined", indexVarName), nextToken)
 			}
 			err = p.checkNewVariableNameToken(nextToken, ctx)
 
